@@ -29,9 +29,10 @@
    but is rejected by the parser); and ABSOLUTE Unix paths (first character '/', shorter than
    sun_path) - a relative path prints as itself but resolves as a host name.  An address with
    non-zero padding, flow label or scope prints to the same text as the canonical one and so does
-   NOT come back.  prettyprint of an AF_UNIX address reads sun_path up to a NUL without consulting
-   namelen (the model says Fault when there is none inside the block): only terminated names are
-   in scope, see the probe "sock.prettyprint-unix-unterminated" of the C15 run. *)
+   NOT come back.  prettyprint of an AF_UNIX address gives the bytes of sun_path up to the first
+   NUL or the end of the name (repaired, F14; C15_sock_addr_prettyprint_no_fault): a name without
+   terminator or shorter than a full sockaddr_un prints, but resolves to the canonical full-size
+   structure, not to itself. *)
 From Coq Require Import NArith ZArith List.
 From LCP Require Import Base.CheckedMem Gen.Repo_codec Gen.Repo_codec2 Util.EndianMem Util.Endian Util.EndianProofs Util.B64 Util.B64Proofs Util.SockText Util.Sock Util.SockProofs.
 From LCP Require Util.ParsenumSpec Util.Parsenum Util.SockTextParsenum.
